@@ -185,8 +185,18 @@ func main() {
 		die(2, "pristine build of %s failed", repoDir)
 	}
 
+	viewBin := ""
+	if id == "C09" {
+		// tools/view is anchored by C09: build it from the tree (pristine)
+		viewBin = filepath.Join(work, "view")
+		if out, err := run(repoDir, env, "go", "build", "-o", viewBin, "./tools/view"); err != nil {
+			fmt.Fprintln(os.Stderr, out)
+			die(2, "cannot build tools/view")
+		}
+	}
 	if replayFile != "" {
 		cmd := exec.Command(instr, "-prop", id, "-tier", tier, "-replay", replayFile)
+		cmd.Env = append(os.Environ(), "VERIF_VIEW="+viewBin)
 		cmd.Stdout, cmd.Stderr = os.Stdout, os.Stderr
 		err := cmd.Run()
 		if ee, ok := err.(*exec.ExitError); ok {
@@ -220,7 +230,7 @@ func main() {
 			of := filepath.Join(work, fmt.Sprintf("res-%d.json", i))
 			cmd := exec.Command(instr, "-prop", id, "-tier", tier, "-shard", strconv.Itoa(i), "-shards", strconv.Itoa(nw),
 				"-deadline", strconv.Itoa(deadline), "-traces", "60", "-out", of)
-			cmd.Env = append(os.Environ(), "GOMAXPROCS=1")
+			cmd.Env = append(os.Environ(), "GOMAXPROCS=1", "VERIF_VIEW="+viewBin)
 			var buf bytes.Buffer
 			cmd.Stdout, cmd.Stderr = &buf, &buf
 			done := make(chan error, 1)
